@@ -458,11 +458,24 @@ def proj_path(t, root):
 
 
 # ------------------------------------------------------------------ R1+R2: format()
+def _is_code_fn(cad, x):
+    """local `fn(kind enum | &kind enum) -> &str` (not a trait impl): a type-code table in function form"""
+    if x.def_kind not in ('Fn', 'AssocFn') or x.impl_trait or x.arg_count != 1:
+        return False
+    a = x.locals[1].lstrip('&').strip()
+    r = x.locals[0].replace("'static ", '').replace(' ', '')
+    return _is_kind_enum(cad, type_head(a)) and r == '&str'
+
+
 def rule_format(fm, rep, rid='R1', scope='all'):
     cad = fm.cad
+    if not hasattr(fm, 'code_fns_used'):
+        fm.code_fns_used = set()
     if not fm.need_roles(rep, {'all': None, 'values': ('prefix', 'key', 'val', 'type', 'rate', 'ts'), 'tags': ('tags', 'cid')}[scope]):
         return
-    body = inl(cad, fm.format)
+    # a private `fn code(self) -> &'static str` on the kind enum stays a call: its table is checked by the type-code rule
+    code_fns = set(x.path for x in cad.all_bodies if _is_code_fn(cad, x))
+    body = inl(cad, fm.format, never=lambda x: x.path in code_fns)
     T = Terms(body)
     for p, bi, d in body.inlined:
         if p in cad.bodies:
@@ -484,6 +497,13 @@ def rule_format(fm, rep, rid='R1', scope='all'):
         """which formatter role does value term x denote? returns (role, extra)"""
         x0 = x
         px = peel(x)
+        # code_of(self.<kind field>)
+        if px[0] == 'call' and px[1] in code_fns and len(px[2]) == 1:
+            n = self_field_name(px[2][0])
+            if fm.role_of.get(n) == 'type' and proj_path(strip_mut(px[2][0]), ('field', ('deref', selfp), n)) == []:
+                fm.code_fns_used.add(px[1])
+                return 'type', None
+            return None, 'type code computed from %s' % fmt(px[2][0])[:60]
         # self.<field>
         n = self_field_name(x)
         if n in fm.role_of and px[0] in ('field', 'load'):
@@ -767,8 +787,40 @@ class _SubBody:
 
 
 # ------------------------------------------------------------------ R3 type codes
+def _code_fn_table(cad, g):
+    """variant -> [string] for a `fn(kind) -> &str`: the value returned on each edge of the match on the argument"""
+    b = inl(cad, g)
+    T = Terms(b)
+    for bi in sorted(reach(b, [0])):
+        if b.blocks[bi]['term']['k'] == 'switch' and not b.blocks[bi]['cleanup']:
+            dt, edges = T.switch_facts(bi)
+            d = norm(dt)
+            if d[0] == 'discr' and peel(d[1]) == ('param', 1):
+                found = {}
+                for s, labs in edges.items():
+                    for lab in labs:
+                        if lab[0] == 'variant':
+                            rts = [peel(r) for r in ret_terms(T, [s])]
+                            found[lab[1]] = [r[1] if r[0] == 'str' else '<%s>' % fmt(r)[:40] for r in rts]
+                return found
+    return None
+
+
 def rule_type_codes(fm, rep, rid='R3'):
     cad = fm.cad
+    for gp in sorted(getattr(fm, 'code_fns_used', ())):
+        g = cad.bodies[gp]
+        rep.analysed(g)
+        found = _code_fn_table(cad, g)
+        if found is None:
+            rep.unknown(rid, 'type-codes/%s/shape' % g.short(), g.where(), 'the type-code function is not a match on its argument')
+            continue
+        for kind, code in KINDS7:
+            rep.sites()
+            got = found.get(kind)
+            ok = got is not None and ''.join(got) == code
+            rep.ob(rid, 'type-code/%s/%s' % (g.short().rsplit('::', 1)[-1], kind), ok, g.where(), '%s -> "%s"' % (kind, code) if ok else
+                   '%s is rendered as %s, the protocol code is "%s"' % (kind, got, code))
     bs = [b for b in cad.all_bodies if b.impl_trait == 'core::fmt::Display' and _is_kind_enum(cad, type_head(b.impl_self or '')) and b.name == 'fmt']
     b0 = one(rep, rid, 'impl Display for MetricType', bs)
     if b0 is None:
